@@ -1,6 +1,6 @@
 (* dispatch : list Z -> list Z  -- the single entry point of the extracted model *)
 From Coq Require Import ZArith List Bool.
-From GV.Model Require Export Wire Wire2 Repr Gym.
+From GV.Model Require Export Wire Wire2 Repr Gym Rays.
 Import ListNotations.
 Open Scope Z_scope.
 
@@ -126,6 +126,11 @@ Definition op_advertised (l : list Z) : list Z :=
       (fun '(is_state, n, h, w, ts, cs) =>
          eres advertised (if is_state : bool then srep_of n (mkSS h w ts cs) else orep_of n (mkOS h w ts cs))) l.
 
+(* the verified ray checkers, for the sweep over areas too large for the kernel *)
+Definition op_fan (l : list Z) : list Z :=
+  run (do a <- parea; do o <- ppos; do rays <- prays; pret (a, o, rays))
+      (fun '(a, o, rays) => [if acontains a o && fan_ok a o rays then 1 else 0; fan_diagnose a o rays]) l.
+
 Definition dispatch (l : list Z) : list Z :=
   match l with
   | 1 :: r => op_geometry r
@@ -144,5 +149,6 @@ Definition dispatch (l : list Z) : list Z :=
   | 14 :: r => op_repr r
   | 15 :: r => op_gym r
   | 16 :: r => op_advertised r
+  | 17 :: r => op_fan r
   | _ => undecodable
   end.
